@@ -151,7 +151,11 @@ class SubProp:
     """
 
     def __init__(self, name, pred, strategy=None, enum=None, n=(200, 4000), shards=(1, 4),
-                 floor=0.3, rule="", weight=1.0, exhaustive=False, min_nt=1):
+                 floor=0.3, rule="", weight=1.0, exhaustive=False, min_nt=1, machine=None, steps=(20, 40)):
+        # machine: callable(ctx, on_run) -> RuleBasedStateMachine subclass whose instances keep .log (list of plain-data steps);
+        # pred(case={"steps": [...]}, ctx) must re-execute such a log (used for replay files)
+        self.machine = machine
+        self.steps = dict(zip(TIERS, steps))
         self.name = name
         self.pred = pred
         self.strategy = strategy
@@ -250,9 +254,41 @@ def run_unit(args):
                 res["violation"] = {"message": msg, "case": json.loads(blob), "phase": "generate"}
             except _Abort:
                 res["error"] = st["error"]
+        # ---- stateful part (rule-based state machine over call histories) -----
+        if sub.machine is not None and res["violation"] is None and res["error"] is None:
+            import hypothesis
+            from hypothesis import HealthCheck, Phase, settings
+            from hypothesis.stateful import run_state_machine_as_test
+            n = n_override or sub.n[tier]
+            n = max(1, int(math.ceil(n / float(nshards))))
+            box = {"failed": None}
+
+            def on_run(log, nontrivial, failed_msg=None):
+                """called by the machine's teardown (log = plain-data steps of this run)"""
+                res["evals"] += 1
+                res["gen_evals"] += 1
+                res["events"]["steps"] = res["events"].get("steps", 0) + len(log)
+                if failed_msg is not None:
+                    box["failed"] = (jsonio.enc({"steps": log}), failed_msg)
+                elif nontrivial:
+                    d = hashlib.sha1(jsonio.dumps(log, sort_keys=True).encode()).digest()[:8]
+                    if d not in digests:
+                        digests.add(d)
+                        if len(samples) < 2:
+                            samples.append(jsonio.brief({"steps": log}, maxlen=12))
+            M = sub.machine(ctx, on_run)
+            M = hypothesis.seed(derive_seed(seed, subname, shard))(M)
+            try:
+                run_state_machine_as_test(M, settings=settings(max_examples=n, stateful_step_count=sub.steps[tier], deadline=None, database=None,
+                                                              report_multiple_bugs=False, suppress_health_check=list(HealthCheck), print_blob=False,
+                                                              phases=[Phase.generate, Phase.shrink]))
+            except Violation as v:
+                case, msg = box["failed"] if box["failed"] else ({"steps": []}, str(v))
+                res["violation"] = {"message": msg, "case": case, "phase": "stateful"}
         res["nt_digests"] = [d.hex() for d in digests]
         res["samples"] = samples
-        res["events"] = dict(ctx.events)
+        for k_, v_ in ctx.events.items():
+            res["events"][k_] = res["events"].get(k_, 0) + v_
         res["known"] = dict(ctx.known_hits)
         res["skips"] = dict(ctx.skips)
     except BaseException:  # harness failure of any kind
@@ -364,7 +400,7 @@ def run_property(prop, tier, seed, only=None, n_override=None, procs=None):
     for s in subs:
         ns = s.shards[tier]
         for sh in range(ns):
-            units.append((s.weight * (s.n[tier] if s.strategy else 1e6) / ns,
+            units.append((s.weight * (s.n[tier] if (s.strategy or s.machine) else 1e6) / ns,
                           (modname, s.name, tier, seed, sh, ns, n_override)))
     units.sort(key=lambda u: -u[0])
     nproc = procs or min(int(os.environ.get("VERIF_PROCS", "16")), len(units))
